@@ -1,4 +1,5 @@
 import StatimeModel.Model.TimeDriver
+import StatimeModel.Model.WireDriver
 /-
 model-driver: line protocol, ops in (stdin), canonical observations out (stdout).
 One output line per input line (multi-part outputs are joined with " ; ").
@@ -11,6 +12,7 @@ structure DState where
 def stepLine (st : DState) (line : String) : DState × String :=
   match words line with
   | "TIME" :: rest => (st, timeLine rest)
+  | "DEC" :: rest => (st, decLine rest)
   | _ => (st, "bad-op")
 
 partial def loop (h : IO.FS.Stream) (out : IO.FS.Stream) (st : DState) : IO Unit := do
